@@ -185,9 +185,12 @@ HEADm == <<72, 69, 65, 68>>
 NoBodyAnswer(o) == o.nocontent \/ ToUpper(o.method) = HEADm
 
 (* The Content-Type of a request names a media type case-insensitively ("Application/JSON"). *)
-WellFormedReq(desc, o, ctype, accept, alt) ==
+(* Accept: none, one declared type, or "first, accept;q=0.8" where `first` is a type the operation does NOT declare,  *)
+(* listed with higher preference before a declared one (jQuery's "application/json, text/javascript, ...").           *)
+WellFormedReq(desc, o, ctype, accept, first, alt) ==
   /\ ProducesFor(desc, o) # {} \/ NoBodyAnswer(o)
   /\ accept = <<>> \/ accept \in ProducesFor(desc, o)
+  /\ first = <<>> \/ (accept # <<>> /\ first \notin ProducesFor(desc, o))
   /\ IF o.body THEN ToLower(ctype) \in ConsumesFor(desc, o) ELSE ctype = <<>>
   /\ CredsOK(desc, o, alt)
 
@@ -198,7 +201,7 @@ RouteSchemes(alts, j) == IF Mutant = "shared-scheme-buffer" THEN alts[Len(alts)]
 (* the faithful outcome classes of serving such a request when consumers and  *)
 (* producers succeed and every authenticator accepts exactly the credentials  *)
 (* of its own scheme                                                          *)
-ServeClasses(desc, reg, o, ctype, accept, alt) ==
+ServeClasses(desc, reg, o, ctype, accept, first, alt) ==
   IF ~HasHandler(reg, o) THEN {"no-handler"}
   ELSE LET alts  == SecurityFor(desc, o)
            creds == IF alt = 0 THEN {} ELSE Rng(alts[alt])
@@ -209,7 +212,9 @@ ServeClasses(desc, reg, o, ctype, accept, alt) ==
        IN IF ~authOK THEN {"no-authenticator"}
           ELSE IF ctype # <<>> /\ ToLower(ctype) \notin RouteConsumers(desc, reg, o) THEN {"no-consumer"}   \* runtime.ContentType lower-cases
           ELSE IF NoBodyAnswer(o) THEN {"ok"}                                                             \* Respond returns before any producer
-          ELSE LET formats == IF accept # <<>> THEN {accept} ELSE RouteProduces(desc, reg, o)   \* no Accept: the first offer
+          ELSE LET formats == IF accept = <<>> THEN RouteProduces(desc, reg, o)                 \* no Accept: the first offer
+                              ELSE IF first # <<>> /\ first \in RouteProduces(desc, reg, o) THEN {first}   \* offered (API default): preferred
+                              ELSE {accept}
                    produced(f) == f \in RouteProducers(desc, reg, o) \/ (reg.json /\ JSONMime \in Producers(reg))
                IN {IF produced(f) THEN "ok" ELSE "no-producer" : f \in formats}
 
@@ -217,14 +222,14 @@ ServingHolds(desc, reg) ==
   (CleanDesc(desc) /\ Validate(desc, reg).ok) =>
      \A o \in Rng(desc.ops) :
        \A ctype \in {<<>>} \cup ConsumesFor(desc, o) \cup {ToUpper(m) : m \in ConsumesFor(desc, o)},
-          accept \in {<<>>} \cup ProducesFor(desc, o),
+          accept \in {<<>>} \cup ProducesFor(desc, o), first \in {<<>>, JSONMime},
           alt \in 0..Len(SecurityFor(desc, o)) :
-          WellFormedReq(desc, o, ctype, accept, alt) => ServeClasses(desc, reg, o, ctype, accept, alt) = {"ok"}
+          WellFormedReq(desc, o, ctype, accept, first, alt) => ServeClasses(desc, reg, o, ctype, accept, first, alt) = {"ok"}
 
-(* observation of one served request: e = [op : index, ctype, accept, alt, class] *)
+(* observation of one served request: e = [op : index, ctype, accept, accept_first, alt, class] *)
 ServeAllowed(desc, reg, e) ==
   (/\ CleanDesc(desc) /\ Coincide(desc, reg)
    /\ e.op \in DOMAIN desc.ops
-   /\ WellFormedReq(desc, desc.ops[e.op], e.ctype, e.accept, e.alt))
+   /\ WellFormedReq(desc, desc.ops[e.op], e.ctype, e.accept, e.accept_first, e.alt))
   => e.class \notin LackClasses
 =============================================================================
